@@ -2,6 +2,10 @@ use serde::{Deserialize, Serialize};
 
 pub type Error = serde_bencode::Error;
 
+// Maximum nesting of lists/dictionaries we are willing to decode. KRPC messages nest three levels
+// deep; the rest is headroom for unknown extension keys.
+const MAX_DEPTH: usize = 32;
+
 #[inline]
 pub(crate) fn encode<T>(value: &T) -> Result<Vec<u8>, Error>
 where
@@ -15,5 +19,73 @@ pub(crate) fn decode<'de, T>(bytes: &'de [u8]) -> Result<T, Error>
 where
     T: Deserialize<'de>,
 {
+    check_limits(bytes)?;
     serde_bencode::from_bytes(bytes)
+}
+
+/// Scan the first bencoded value in `bytes` and fail if it declares a byte string longer than the
+/// remaining input or if it is nested too deep.
+///
+/// The decoder allocates the declared length of a byte string before reading it and recurses on
+/// every nesting level, so without this check a tiny datagram could make it request an arbitrary
+/// amount of memory (aborting the process) or overflow the stack. Anything else that is wrong
+/// with the input is left for the decoder to report.
+fn check_limits(bytes: &[u8]) -> Result<(), Error> {
+    let mut depth = 0usize;
+    let mut pos = 0;
+
+    while let Some(&byte) = bytes.get(pos) {
+        pos += 1;
+
+        match byte {
+            b'0'..=b'9' => {
+                let mut len = usize::from(byte - b'0');
+
+                loop {
+                    match bytes.get(pos) {
+                        Some(&digit @ b'0'..=b'9') => {
+                            len = len
+                                .checked_mul(10)
+                                .and_then(|len| len.checked_add(usize::from(digit - b'0')))
+                                .ok_or(Error::EndOfStream)?;
+                            pos += 1;
+                        }
+                        Some(b':') => {
+                            pos += 1;
+                            break;
+                        }
+                        // Malformed or truncated length, the decoder will reject it.
+                        Some(_) | None => return Ok(()),
+                    }
+                }
+
+                if len > bytes.len() - pos {
+                    return Err(Error::EndOfStream);
+                }
+
+                pos += len;
+            }
+            b'i' => match bytes[pos..].iter().position(|&byte| byte == b'e') {
+                Some(offset) => pos += offset + 1,
+                None => return Ok(()),
+            },
+            b'l' | b'd' => {
+                depth += 1;
+
+                if depth > MAX_DEPTH {
+                    return Err(Error::InvalidValue("nesting too deep".to_owned()));
+                }
+            }
+            b'e' => depth = depth.saturating_sub(1),
+            // Invalid character, the decoder will reject it.
+            _ => return Ok(()),
+        }
+
+        // The decoder reads a single value and ignores whatever follows it.
+        if depth == 0 {
+            break;
+        }
+    }
+
+    Ok(())
 }
